@@ -438,7 +438,7 @@ def all_pages(res: CheckResult, prog: Program):
     res.add('ALL-PAGES', fi.short, 'page loop and key loop have no break/return', not exits,
             '' if not exits else f'{type(exits[0]).__name__.lower()} at line {exits[0].lineno} ends the listing early: keys of later pages are lost', fi.file, page.lineno)
     pag = calls_in(page.iter, lambda c: attr_chain(c.func).endswith('.paginate'))
-    ok = bool(pag) and any(k.arg == 'Prefix' and attr_chain(k.value) == 'prefix' for k in pag[0].keywords) \
+    ok = bool(pag) and any(k.arg == 'Prefix' and 'prefix' in attr_chain(k.value) for k in pag[0].keywords) \
         and any(k.arg == 'Bucket' and attr_chain(k.value) == 'bucket_name' for k in pag[0].keywords)
     res.add('ALL-PAGES', fi.short, 'paginate(Bucket=bucket_name, Prefix=prefix)', ok, '' if ok else 'bucket/prefix are not forwarded to the paginator', fi.file, page.lineno)
     conds = [n for n in ast.walk(page) if isinstance(n, ast.If)]
@@ -447,6 +447,12 @@ def all_pages(res: CheckResult, prog: Program):
     res.add('ALL-PAGES', fi.short, 'if key.endswith(suffix): files.append(key)', ok,
             '' if ok else f'keys are filtered by {[norm(c.test) for c in conds]}', fi.file, page.lineno)
     none_fix = any(isinstance(n, ast.If) and 'prefix is None' in norm(n.test) and "prefix = ''" in norm(n.body[0]) for n in fi.node.body)
+    for n in ast.walk(fi.node):
+        # equivalent spellings: prefix = '' if prefix is None else prefix ; prefix = prefix or '' ; Prefix=prefix or ''
+        if isinstance(n, ast.Assign) and attr_chain(n.targets[0]) == 'prefix' and isinstance(n.value, (ast.IfExp, ast.BoolOp)) and "''" in norm(n.value):
+            none_fix = True
+        if isinstance(n, ast.keyword) and n.arg == 'Prefix' and isinstance(n.value, (ast.IfExp, ast.BoolOp)) and "''" in norm(n.value):
+            none_fix = True
     res.add('ALL-PAGES', fi.short, "prefix None -> ''", none_fix, '' if none_fix else 'a None prefix is not normalised to the empty string', fi.file, fi.node.lineno)
     rets = [r for r in ast.walk(fi.node) if isinstance(r, ast.Return) and r.value is not None]
     ok = len(rets) == 1 and isinstance(rets[0].value, ast.Name)
